@@ -44,7 +44,7 @@ PROPS = {
     },
     "C02": {
         "n": {"quick": 2500, "thorough": 150000},
-        "cone": ["Bytes", "Regex", "Generated", "Netconf", "NetconfLemmas"],
+        "cone": ["Bytes", "Regex", "Generated", "Netconf", "NetconfLemmas", "NcSession", "NcSessionLemmas", "NcSegLemmas"],
         "rule": "NetconfResponse.Record on raw bytes under recover(): well-formed stream = generated payloads (multi-byte UTF-8, '#', digits, "
                 "LF, ']]>' and rpc-error variants at chunk edges) x random partitions (incl. 1-byte chunks) x surrounding whitespace; malformed "
                 "stream = truncations, size mutations (negative/alpha/oversize/empty), dropped terminator, junk at marker positions, over-long "
@@ -54,8 +54,10 @@ PROPS = {
                       "chunk list decodes to exactly the trimmed payload; every listed malformation yields a parse error; an accepted result "
                       "is a subsequence of the input. Tied to the code by differential runs of Record on generated well-formed and malformed "
                       "frames and a model-free RFC 6242 reference decoder.",
-        "level_note": "Trusted: Coq kernel; generated constants (header, delimiter, max size length, marker list); extraction + main.ml; "
-                      "harness generators. Read-loop message delimiting (segmentation into reads) is exercised end-to-end under C08/C09.",
+        "level_note": "C02_wellformed_10 (1.0 framing, no hypothesis on the payload), C02_split_independent and C02_reply_any_split_11/_10: the read loop "
+                      "files a message identically for every cut into reads at which no proper prefix matches the delimiter pattern, and the call with that "
+                      "message-id returns exactly the payload. Trusted: Coq kernel; generated constants (header, delimiter, max size length, marker list) and "
+                      "delimiter regex ASTs + RX; extraction + main.ml; harness generators.",
         "assumptions": ["payloads are XML documents (declaration, if any, first); 1.0 payloads do not contain the ']]>]]>' delimiter"],
     },
     "C15": {
@@ -123,7 +125,7 @@ PROPS = {
     "C04": {
         "pf": True,
         "n": {"quick": 250, "thorough": 8000},
-        "cone": ["Bytes", "BytesLemmas", "Regex", "Generated", "Channel", "Network", "NetworkAbs", "NetworkLemmas", "NetworkTwins", "Replay"],
+        "cone": ["Bytes", "BytesLemmas", "Regex", "Generated", "Channel", "Network", "NetworkAbs", "NetworkLemmas", "NetworkTwins", "NetworkHistory", "NetworkHistoryLemmas", "Replay"],
         "rx": True,
         "rule": "network.Driver over the simulated transport against a privilege-tree device: random rooted labelled trees of 1-6 levels (with and "
                 "without authenticated edges, with/without secondary secret), every kind of start mode / default level, histories of 1-6 operations "
@@ -131,7 +133,7 @@ PROPS = {
                 "read segmentations. The transport log is replayed by the model of driver/network (programs over the Channel interpreter); compared: "
                 "per-call outcome/result, every write (with redaction of the secret), the cached level. Oracle: device (mode, line) log = commands of "
                 "the BFS tree path then the operation's lines, final mode = target. Non-trivial = more than one level. A third of the trees have twin sibling leaves with one prompt pattern (as IOS-XR configuration / configuration-exclusive), acquire targets biased to the twins; sessions never start in a twin.",
-        "level_text": "C04_acquire_twins / _acquire_many_twins generalise C04_acquire to trees in which several LEAF levels share one prompt (IOS-XR, Junos "
+        "level_text": "C04_history / _commands_at_default / _configs_at_config_level: for EVERY history of SendCommand(s) (with its cached-level shortcut), SendConfigs and AcquirePriv whose own lines do not change the device's mode, from any start mode with an accurate or not-yet-set cache, every acquire succeeds and each operation's lines are logged AT the default desired level (commands) / the configuration or requested level (configs), preceded by exactly the tree path's commands; C04_inert_needed shows the hypothesis cannot be dropped (the library trusts its cached level: known finding F25). C04_acquire_twins / _acquire_many_twins generalise C04_acquire to trees in which several LEAF levels share one prompt (IOS-XR, Junos "
                       "configuration variants): with an accurate cached level (or an unambiguous mode) every acquire of a session reaches its target along the "
                       "tree path and re-establishes the cache invariant; side condition found by the proof: no level called UNKNOWN may be a prompt-twin. "
                       "Theorems C04_tree_path / _tree_path_unique / _dfs_order_irrelevant / _acquire / _unknown_target: for every well-formed privilege tree, "
@@ -220,10 +222,10 @@ PROPS = {
     },
     "C08": {
         "n": {"quick": 120, "thorough": 5000},
-        "cone": ["Bytes", "BytesLemmas", "Regex", "Generated", "Netconf", "NetconfLemmas", "NcSession", "NcSessionLemmas"],
+        "cone": ["Bytes", "BytesLemmas", "Regex", "Generated", "Netconf", "NetconfLemmas", "NcSession", "NcSessionLemmas", "NcSegLemmas"],
         "rx": True,
         "rule": NC_RULE + " Histories of 1-25 RPCs with 60 ms timeouts and late replies; non-trivial = more than one request.",
-        "level_text": "Theorems C08_ids / _own_reply / _own_request / _complete_message_filed / _incomplete_kept / _late_reply_harmless / _no_panic over the "
+        "level_text": "C08_reply_never_lost / _message_any_split: for any cut of a reply into reads (no boundary making a proper prefix look complete) the call carrying its message-id returns it, other ids' entries untouched. Theorems C08_ids / _own_reply / _own_request / _complete_message_filed / _incomplete_kept / _late_reply_harmless / _no_panic over the "
                       "model of the read loop and RPC wait hold for every operation list and every log (store invariant by induction, unbounded). "
                       "Tied to driver/netconf by replaying the logged schedule of each real session.",
         "level_note": "Hypotheses carried by the theorems: a message's id must be extractable from the framed bytes (see the known finding: a 1.1 chunk "
